@@ -610,7 +610,8 @@ impl<'a> Searcher<'a> {
             _ => root_depth,
         };
 
-        let depth = canonical_depth - base_depth + 1;
+        // a followed link may lead above the root
+        let depth = canonical_depth.saturating_sub(base_depth) + 1;
 
         #[cfg(feature = "verif")]
         crate::verif::emit("dir", &[
